@@ -304,19 +304,19 @@ theorem untrusted_host (cfg : Config) (failed : UInt8) (r : Req) (h : r.hostTrus
 /-! ### host_is_trusted -/
 
 /-- **Soundness of `host_is_trusted`** for every Host, trusted list and IDNA function: an accepted
-Host is non-empty, its port-stripped name encodes, and some listed entry either encodes to the same
+Host is non-empty, its port-stripped name (`_strip_port`) encodes, and some listed entry either encodes to the same
 name or is dot-prefixed and the name ends with `"." ++ entry`. Look-alike suffixes
 (`evillocalhost`, `localhost.evil.com`) therefore cannot be accepted. -/
 theorem host_trusted_sound (idna : Idna) (host : Option (List Char)) (trusted : List (List Char))
     (h : hostIsTrusted idna host trusted = true) :
-    ∃ hst hn, host = some hst ∧ hst ≠ [] ∧ idna (beforeColon hst) = .ok hn ∧
+    ∃ hst hn, host = some hst ∧ hst ≠ [] ∧ idna (stripPort hst) = .ok hn ∧
       ∃ ref ∈ trusted, RefMatches idna hn ref := by
   unfold hostIsTrusted at h
   split at h
   · cases h
   · cases h
   · rename_i hst hne
-    cases hi : idna (beforeColon hst) with
+    cases hi : idna (stripPort hst) with
     | error e => simp [hi] at h
     | ok hn =>
       simp only [hi] at h
@@ -326,9 +326,9 @@ theorem host_trusted_sound (idna : Idna) (host : Option (List Char)) (trusted : 
 list can be IDNA-encoded (a sane configuration; an unencodable entry makes the code answer False
 for everything that is not matched by an earlier entry). -/
 theorem host_trusted_iff (idna : Idna) (hst : List Char) (trusted : List (List Char))
-    (henc : ∀ ref ∈ trusted, ∃ rn, idna (beforeColon (refParts ref).2) = .ok rn) :
+    (henc : ∀ ref ∈ trusted, ∃ rn, idna (stripPort (refParts ref).2) = .ok rn) :
     hostIsTrusted idna (some hst) trusted = true ↔
-      hst ≠ [] ∧ ∃ hn, idna (beforeColon hst) = .ok hn ∧ ∃ ref ∈ trusted, RefMatches idna hn ref := by
+      hst ≠ [] ∧ ∃ hn, idna (stripPort hst) = .ok hn ∧ ∃ ref ∈ trusted, RefMatches idna hn ref := by
   constructor
   · intro h
     obtain ⟨h', hn, he, hne, hi, hm⟩ := host_trusted_sound idna (some hst) trusted h
@@ -365,54 +365,102 @@ theorem true_subdomain (hn rn : List Char) (hdot : hn.head? ≠ some '.')
 example : "sub.localhost".toList.head? ≠ some '.' ∧ ('.' :: "localhost".toList) <:+ "sub.localhost".toList := by
   decide
 
-/-! ### known finding F20c: bracketed IPv6 literals -/
+/-! ### bracketed IPv6 literals (F20c, repaired by ede13ce) -/
 
-/-- the authority without its port, keeping a bracketed IPv6 literal whole -/
-def stripPort : List Char → List Char
-  | '[' :: rest =>
-    if rest.contains ']' then '[' :: rest.takeWhile (· != ']') ++ [']'] else '[' :: rest
-  | s => beforeColon s
+/-- **What `_strip_port` removes**: from `[body]rest` (no `]` inside `body`) only a `:port` directly
+after the closing bracket is removed; when anything else follows the bracket — or the bracket is
+never closed — the text is kept whole, so garbage after `]` is never stripped; any host that does not
+start with `[` is cut at its first `:`. -/
+theorem strip_port_spec (body rest : List Char) (hb : ']' ∉ body) :
+    stripPort ('[' :: body ++ ']' :: rest) =
+      (if rest = [] ∨ rest.head? = some ':' then '[' :: body ++ [']'] else '[' :: body ++ ']' :: rest) ∧
+    stripPort ('[' :: body) = '[' :: body ∧
+    (∀ s : List Char, s.head? ≠ some '[' → stripPort s = beforeColon s) := by
+  refine ⟨?_, ?_, ?_⟩
+  · cases rest with
+    | nil =>
+      have h1 := takeWhile_ne_append ']' body [] hb
+      simp [stripPort, h1.2]
+    | cons c t =>
+      have h1 := takeWhile_ne_append ']' body (c :: t) hb
+      by_cases hc : c = ':'
+      · subst hc
+        simp [stripPort, h1.1, h1.2]
+      · simp only [List.cons_append, stripPort, h1.1, h1.2, List.head?_cons, Option.some.injEq, hc, or_false,
+          reduceCtorEq, if_false]
+        split
+        · rename_i heq; cases heq
+        · rename_i heq; simp only [List.cons.injEq] at heq; exact absurd heq.1 hc
+        · rfl
+  · simp [stripPort, takeWhile_ne_all ']' body hb]
+  · intro s hs
+    unfold stripPort
+    split
+    · rename_i r; simp at hs
+    · rfl
 
-/-- `host` is exactly a listed name, or a subdomain of a dot-prefixed entry — comparing the names
-with their ports stripped properly (what the property asks for) -/
-def ExactlyListed (idna : Idna) (hst : List Char) (trusted : List (List Char)) : Prop :=
-  ∃ hn, idna (stripPort hst) = .ok hn ∧ ∃ ref ∈ trusted, ∃ rn,
-    idna (stripPort (refParts ref).2) = .ok rn ∧ (rn = hn ∨ ((refParts ref).1 = true ∧ ('.' :: rn) <:+ hn))
-
-/-- The full-strength statement "an accepted Host is exactly a listed name or a true subdomain" is
-false: `host_is_trusted('[::2]', ['[::1]'])` is True because `partition(':')` reduces both sides
-to `[` — a different address literal is accepted (known finding F20c). -/
-theorem host_exact_full_false :
-    ¬ (∀ (hst : List Char) (trusted : List (List Char)),
-        hostIsTrusted asciiIdna (some hst) trusted = true → ExactlyListed asciiIdna hst trusted) := by
-  intro h
-  have hacc : hostIsTrusted asciiIdna (some "[::2]".toList) ["[::1]".toList] = true := by decide
-  obtain ⟨hn, h1, ref, hmem, rn, h2, h3⟩ := h _ _ hacc
+/-- a non-dot-prefixed entry accepts a Host only if both reduce to the same text
+(CPython's codec on ASCII input returns it unchanged) -/
+theorem ascii_exact_match (hst ref : List Char) (hnd : ref.head? ≠ some '.')
+    (h : hostIsTrusted asciiIdna (some hst) [ref] = true) : stripPort hst = stripPort ref := by
+  obtain ⟨h', hn, he, _, hi, r, hmem, rn, hr, hm⟩ := host_trusted_sound asciiIdna (some hst) [ref] h
+  cases he
   simp only [List.mem_singleton] at hmem
   subst hmem
-  have e1 : asciiIdna (stripPort "[::2]".toList) = .ok "[::2]".toList := by rfl
-  have e2 : asciiIdna (stripPort (refParts "[::1]".toList).2) = .ok "[::1]".toList := by rfl
-  rw [e1] at h1
-  rw [e2] at h2
-  cases h1
-  cases h2
-  rcases h3 with h3 | ⟨h3, _⟩
-  · exact absurd h3 (by decide)
-  · exact absurd h3 (by decide)
+  have hp : refParts r = (false, r) := by
+    cases r with
+    | nil => rfl
+    | cons c t =>
+      have : c ≠ '.' := by simpa using hnd
+      unfold refParts
+      split
+      · rename_i heq; simp only [List.cons.injEq] at heq; exact absurd heq.1 this
+      · rfl
+  rw [hp] at hr hm
+  have e1 := asciiIdna_ok hi
+  have e2 := asciiIdna_ok hr
+  rcases hm with hm | ⟨hm, _⟩
+  · rw [← e1, ← e2, hm]
+  · cases hm
 
-/-- ... and it holds for every Host and trusted list on which `partition(':')` strips the port
-where a bracket-aware strip does (no `:` inside brackets — every name, IPv4 address and
-`name:port`), for every IDNA function. -/
-theorem host_exact_partial (idna : Idna) (hst : List Char) (trusted : List (List Char))
-    (hh : beforeColon hst = stripPort hst)
-    (ht : ∀ ref ∈ trusted, beforeColon (refParts ref).2 = stripPort (refParts ref).2)
-    (h : hostIsTrusted idna (some hst) trusted = true) : ExactlyListed idna hst trusted := by
-  obtain ⟨h', hn, he, _, hi, ref, hmem, rn, hr, hm⟩ := host_trusted_sound idna (some hst) trusted h
-  cases he
-  exact ⟨hn, by rw [← hh]; exact hi, ref, hmem, rn, by rw [← ht ref hmem]; exact hr, hm⟩
+/-- **A different address literal is never accepted**: `[a]` (with or without a port) is accepted by
+the entry `[b]` (with or without a port) only if `a = b`. (Before ede13ce every `[…` host matched
+every `[…` entry.) -/
+theorem different_literal_rejected (a b p q : List Char) (ha : ']' ∉ a) (hb : ']' ∉ b)
+    (hp : p = [] ∨ p.head? = some ':') (hq : q = [] ∨ q.head? = some ':')
+    (h : hostIsTrusted asciiIdna (some ('[' :: a ++ ']' :: p)) ['[' :: b ++ ']' :: q] = true) : a = b := by
+  have := ascii_exact_match _ _ (by simp) h
+  rw [(strip_port_spec a p ha).1, (strip_port_spec b q hb).1] at this
+  simp only [hp, hq, if_true] at this
+  have := List.append_cancel_right this
+  simpa using this
 
-example : beforeColon "sub.localhost:5000".toList = stripPort "sub.localhost:5000".toList := by decide
-example : beforeColon "[::1]:80".toList ≠ stripPort "[::1]:80".toList := by decide
+example : hostIsTrusted asciiIdna (some "[::1]:8080".toList) ["[::1]".toList] = true := by decide
+example : hostIsTrusted asciiIdna (some "[::2]".toList) ["[::1]".toList] = false := by decide
+example : hostIsTrusted asciiIdna (some "[".toList) ["[::1]".toList] = false := by decide
+
+/-- **Garbage after `]` is never stripped**: `[a]` followed by anything that is not `:port` is not
+accepted by the entry `[a]` (nor by `[a]:port`). -/
+theorem garbage_after_bracket_rejected (a g q : List Char) (ha : ']' ∉ a) (hg : g ≠ [])
+    (hg' : g.head? ≠ some ':') (hq : q = [] ∨ q.head? = some ':') :
+    hostIsTrusted asciiIdna (some ('[' :: a ++ ']' :: g)) ['[' :: a ++ ']' :: q] = false := by
+  cases hres : hostIsTrusted asciiIdna (some ('[' :: a ++ ']' :: g)) ['[' :: a ++ ']' :: q] with
+  | false => rfl
+  | true =>
+    exfalso
+    have := ascii_exact_match _ _ (by simp) hres
+    rw [(strip_port_spec a g ha).1, (strip_port_spec a q ha).1] at this
+    have hgc : ¬ (g = [] ∨ g.head? = some ':') := by
+      intro h; rcases h with h | h
+      · exact hg h
+      · exact hg' h
+    simp only [hgc, hq, if_false, if_true] at this
+    have := List.append_cancel_left this
+    simp only [List.cons.injEq, true_and] at this
+    exact hg this
+
+example : hostIsTrusted asciiIdna (some "[::1]evil".toList) ["[::1]".toList] = false := by decide
+example : hostIsTrusted asciiIdna (some "[::1".toList) ["[::1]".toList] = false := by decide
 
 /-! ### PIN lock-out -/
 
@@ -450,5 +498,44 @@ theorem wrapping_counter_unlocks :
     (runHistory failPinAuth 0 (List.replicate 256 Attempt.stale ++ [.right])).1.getLast?
       = some ⟨false, true⟩ := by
   decide +kernel
+
+/-! ### PIN changes at run time -/
+
+/-- **eval needs a cookie for the current PIN**: in a session an eval attempt (everything else
+right) runs only if the client's cookie was issued for the PIN that is current now. -/
+theorem session_eval_gate (s : Session) (h : (actStep s .eval).1 = .evalRan true) : s.held = some s.gen := by
+  simp only [actStep, Obs.evalRan.injEq] at h
+  unfold heldTrust at h
+  cases hh : s.held with
+  | none => simp [hh, Trust.isYes] at h
+  | some g =>
+    simp only [hh] at h
+    by_cases hg : (g == s.gen) = true
+    · have : g = s.gen := by simpa using hg
+      rw [this]
+    · simp [hg, Trust.isYes] at h
+
+/-- **Changing the PIN invalidates every cookie issued before**: after any session `pre`, once the
+application's PIN is changed, no later step evaluates code and no pinauth answers `auth` — whatever
+cookies are reused, however often — until the *new* PIN itself is entered. No bound on either history. -/
+theorem pin_change_invalidates (pre rest : List Act) (hno : ∀ a ∈ rest, a ≠ .right) :
+    ∀ o ∈ (runSession (actStep (runSession {} pre).2 .change).2 rest).1,
+      o ≠ .evalRan true ∧ ∀ r, o = .pin r → r.auth = false := by
+  have hle : HeldLe (runSession {} pre).2 := runSession_heldLe pre {} (by intro g hg; cases hg)
+  have hst : HeldStale (actStep (runSession {} pre).2 .change).2 := by
+    intro g hg
+    have := hle g hg
+    simp only [actStep]; omega
+  exact runSession_stale rest _ hno hst
+
+example : (runSession {} [.right, .eval, .change, .eval, .reuse, .right, .eval]).1
+    = [.pin ⟨true, false⟩, .evalRan true, .changed, .evalRan false, .pin ⟨false, false⟩, .pin ⟨true, false⟩,
+       .evalRan true] := by decide
+
+/-- on attempts that present no issued cookie, sessions are exactly the attempt histories of
+`lockout_permanent` (so the lock-out theorems carry over) -/
+theorem session_extends_history (hist : List Attempt) :
+    (runSession {} (hist.map Attempt.toAct)).1 = (runHistory failPinAuth 0 hist).1.map Obs.pin :=
+  (runSession_history hist {}).1
 
 end Wz.Props.C20
